@@ -261,9 +261,11 @@ Definition handle_upsert (c : scfg) (s : sstate) (k h ve old_w new_w : N) : res 
   let i := ve_info s ve in
   let s := upd_info s i (si_set_dirty false) in
   if si_admitted (get_info s i) then
-    (* update of an admitted entry *)
-    let s1 := sset_ws s (sat_add64 (sat_sub (s_ws s) (si_weight (get_info s i))) new_w) in
-    let s2 := upd_info s1 i (si_set_weight new_w) in
+    (* update of an admitted entry: only the op carrying the value the map holds now sets the weight *)
+    let s2 := if (match s_map s !! k with Some v => v =? ve | None => false end)
+              then upd_info (sset_ws s (sat_add64 (sat_sub (s_ws s) (si_weight (get_info s i))) new_w))
+                            i (si_set_weight new_w)
+              else s in
     s3 <-r s_move_to_back_ao s2 i;
     s_move_to_back_wo s3 i
   else if negb (map_has_info s k i) then Ok s            (* stale op: skip *)
